@@ -1,9 +1,9 @@
-From Tetl Require Import Lib.Base C06a.Spec C09.Ops C09.Model C09.Spec C09.ModelCmp C09.ModelCtor C09.Instances C09.InstancesT.
+From Tetl Require Import Lib.Base C06a.Spec C09.Ops C09.Model C09.Spec C09.ModelCmp C09.ModelCtor C09.Instances C09.InstancesT C09.ModelMove C09.SpecMove.
 Require Extraction.
 Require Import ExtrOcamlBasic.
 Extraction Language OCaml.
 Extraction "C09_model.ml" wire_anchor
   init key_cut run ask relations set_eq fms_construct
   s_run s_ask s_relations stable_sort_spec s_multiset_of_range
-  run2 s_run2 init2 run3 s_run3
+  run2 s_run2 init2 run3 s_run3 erase_touched s_erase_nothing_touched
   cmp_less cmp_greater cmp_half point_cut band_cut point_cut_g band_cut_g pred_of key_eqb key_ltb.
